@@ -2,6 +2,8 @@
 
    leg timemacro:  case = ( chunk ... )                 result = ( date time timestamp digest_ok )
    leg toonew:     case = ( (m?) (c?) start )           result = 0 | 1
+   leg ppkey:      case = ( itm ( (bytes date mtime) ... ) )   result = ( class ... ), 0 = mode disabled for this input,
+                   otherwise 1 + index of the first variant whose preprocessor-cache key is equal
    leg ppcache:    case = ( step ... )
        step = ( rec fresh date key ( (name system) ... ) ( file ... ) )
             | ( look date ( file ... ) )
@@ -19,7 +21,7 @@
 From Coq Require Import List NArith Bool.
 From Coq Require String.
 Import String.StringSyntax.
-From Sccache Require Import Base.Sx Gen.C04Consts Model.TimeMacro Model.PpCache.
+From Sccache Require Import Base.Sx Gen.C04Consts Model.TimeMacro Model.PpCache Model.LineMarker.
 Import ListNotations.
 Local Open Scope N_scope.
 Local Open Scope string_scope.
@@ -125,22 +127,23 @@ Definition step_cfg (cfg : config) (s : st) (x : sx) : st :=
   | SL [t; fresh; date; k; SL incs; SL files] =>
       if is_sym "rec" t then
         let fs := apply_files true j (s_fs s) files in
-        let base := if get_bool fresh then entry_new Dg else s_entry s in
         let incl := map (fun i => match i with
                                   | SL [n; sy] => (get_B n, get_bool sy)
                                   | _ => ([], false)
                                   end) incs in
-        let included := remember_all Dg Hx HTx cfg fs (start_of j) (get_B date) input_path [] incl in
-        let '(e', status, truth') :=
-          match included with
-          | None => (s_entry s, "disabled", s_truth s)
-          | Some [] => (s_entry s, "empty", s_truth s)
-          | Some inc =>
-              let files' := sort_files Dg inc in
+        let op := {| ro_fresh := get_bool fresh; ro_fs := fs; ro_start := start_of j; ro_date := get_B date;
+                     ro_input := input_path; ro_key := get_B k; ro_incs := incl |} in
+        let '(e', st) := apply_rec Dg Hx HTx cfg (s_entry s) op in
+        let '(status, truth') :=
+          match st with
+          | RecDisabled => ("disabled", s_truth s)
+          | RecEmpty => ("empty", s_truth s)
+          | RecOk =>
+              let files' := match remember_all Dg Hx HTx cfg fs (start_of j) (get_B date) input_path [] incl with
+                            | Some inc => sort_files Dg inc | None => [] end in
               let tr := map (fun dp => let '(b, m) := truth_now fs (snd dp) in
                                        (snd dp, match b with Some b => b | None => [] end, m)) files' in
-              (add_result Dg base fs (start_of j) (get_B k) files', "ok",
-               (get_B k, (tr, get_B date)) :: (if get_bool fresh then [] else s_truth s))
+              ("ok", (get_B k, (tr, get_B date)) :: (if get_bool fresh then [] else s_truth s))
           end in
         {| s_fs := fs; s_j := j + 1; s_entry := e'; s_truth := truth';
            s_out := s_out s ++ [SL (sym "r" :: sym status :: enc_entry e')] |}
@@ -181,8 +184,81 @@ Definition run_ppcache (x : sx) : sx :=
   | _ => err "bad case"
   end.
 
+(* ---------------- ppkey ---------------- *)
+Definition opt_idigest_eqb (a b : option (idigest Dg)) : bool :=
+  match a, b with
+  | Some x, Some y => idigest_eqb Dg bytes_eqb x y
+  | _, _ => false
+  end.
+
+Fixpoint first_pos (k : option (idigest Dg)) (l : list (option (idigest Dg))) (i : N) : N :=
+  match l with
+  | [] => i
+  | x :: r => if opt_idigest_eqb x k then i else first_pos k r (i + 1)
+  end.
+
+Fixpoint classes (seen todo : list (option (idigest Dg))) : list sx :=
+  match todo with
+  | [] => []
+  | k :: r =>
+      (match k with
+       | None => SN 0
+       | Some _ => SN (1 + first_pos k seen 0)
+       end) :: classes (seen ++ [k]) r
+  end.
+
+Definition run_ppkey (x : sx) : sx :=
+  match x with
+  | SL [itm; SL vs] =>
+      let cfg := cfg_of (if get_bool itm then 13 else 9) in
+      let ks := map (fun v => match v with
+                              | SL [b; d; m] => input_file_digest Dg Hx HTx cfg (get_B b) (get_B d) (get_N m)
+                              | _ => None
+                              end) vs in
+      SL (classes [] ks)
+  | _ => err "bad case"
+  end.
+
+(* ---------------- linemarker ----------------
+   case   = ( cfg start date cwd input text ( (abspath kind bytes mtime external) ... ) )
+   result = ( ok ( path ... ) same ) | ( ok ( path ... ) ( patched-text ) ) | ( disabled ) | ( err )
+   recorded paths are printed canonically, sorted *)
+Fixpoint ins_bytes (x : bytes) (l : list bytes) : list bytes :=
+  match l with
+  | [] => [x]
+  | y :: r => if bytes_ltb x y then x :: y :: r else y :: ins_bytes x r
+  end.
+
+Definition run_linemarker (x : sx) : sx :=
+  match x with
+  | SL [ci; st; date; cwd; input; text; SL files] =>
+      let fs := fold_left (fun fs f =>
+                  match f with
+                  | SL [p; k; b; mt; _] =>
+                      let nd := if N.eqb (get_N k) 0
+                                then {| n_kind := KFile; n_size := N.of_nat (length (get_B b)); n_mtime := get_N mt;
+                                        n_ctime := get_N st - 3; n_bytes := get_B b |}
+                                else if N.eqb (get_N k) 1
+                                then {| n_kind := KDir; n_size := 40; n_mtime := get_N mt; n_ctime := get_N st - 3; n_bytes := [] |}
+                                else {| n_kind := KOther; n_size := 0; n_mtime := get_N mt; n_ctime := get_N st - 3; n_bytes := [] |} in
+                      (get_B p, nd) :: fs_remove fs (get_B p)
+                  | _ => fs
+                  end) files [] in
+      match process_preprocessed_file Dg Hx HTx (cfg_of (get_N ci)) fs (get_N st) (get_B date)
+                                      (get_B input) (get_B cwd) (get_B text) with
+      | LmOk _ inc t =>
+          SL [sym "ok"; SL (map SB (fold_right ins_bytes [] (map fst inc)));
+              if bytes_eqb t (get_B text) then sym "same" else SL [SB t]]
+      | LmDisabled _ => SL [sym "disabled"]
+      | LmErr _ => SL [sym "err"]
+      end
+  | _ => err "bad case"
+  end.
+
 Definition dispatch (leg : list N) (x : sx) : sx :=
   if bytes_eqb leg (bs "timemacro") then run_timemacro x
   else if bytes_eqb leg (bs "toonew") then run_toonew x
   else if bytes_eqb leg (bs "ppcache") then run_ppcache x
+  else if bytes_eqb leg (bs "ppkey") then run_ppkey x
+  else if bytes_eqb leg (bs "linemarker") then run_linemarker x
   else err "unknown leg".
